@@ -93,11 +93,13 @@ package mongokit
 //@   let F = spec.filtered(list, *query, docs())
 //@   let n = ite(limit > 0 && limit < len(F), limit, len(F))
 //@   ensures imp(err == nil, len(result0) == n && forall(i, 0, n, result0[i] == F[i]))
+//@   ensures (len(result0) == 0 || fresh(result0)) && forall(i, 0, len(result0), allocated(result0[i]))
 //@ func Sort
 //@   trusted
 //@   uses lists
 //@   modifies nothing
-//@   ensures imp(err == nil, result0 == spec.sortedBy(list, *doc, docs()))
+//@   ensures imp(err == nil, same(result0, spec.sortedBy(list, *doc, docs())))
+//@   ensures (len(result0) == 0 || fresh(result0)) && forall(i, 0, len(result0), allocated(result0[i]))
 
 // The mutating methods of a collection write only the collection's own
 // structure (everything allocated at or after the collection object itself: a
@@ -108,14 +110,8 @@ package mongokit
 
 //@ define failTaints(c) = imp(err == nil, ghost.tainted == old(ghost.tainted)) && imp(err != nil, ghost.tainted == upd(old(ghost.tainted), c, true))
 
-//@ func NewCollection
-//@   trusted
-//@   modifies nothing
-//@   ensures result != nil && fresh(result) && !ghost.tainted[result]
-//@ func (*Collection).Clone
-//@   trusted
-//@   modifies nothing
-//@   ensures result != nil && fresh(result) && ghost.tainted[result] == ghost.tainted[c]
+// (the verified contract of NewCollection follows the definition of coherent below)
+// (the verified contract of Collection.Clone follows the definition of coherent below)
 
 // Index coverage (C15, C07). ghost.cov[i][d]: index i covers document d - the
 // last Add or Remove of d on i that reported success was an Add (a ghost history
@@ -158,50 +154,203 @@ package mongokit
 //@   tags C15
 //@   requires wfIndex(i)
 //@   modifies nothing
+// A clone of an index covers what the original covers, on a copy of its tree.
+//@ func (*Index).Clone
+//@   tags C03 C15
+//@   requires wfIndex(i)
+//@   modifies ghost.cov, ghost.tree
+//@   ensures [ghostdef] ghost.cov == upd(old(ghost.cov), result, old(ghost.cov)[i])
+//@   ensures [C03,C15 name=fresh-copy] result != nil && fresh(result) && wfIndex(result) && fresh(result.base) && fresh(result.base.btree) && ghost.tree[result.base.btree] == old(ghost.tree)[i.base.btree]
+//@   ensures [C03,C15 name=others-kept] all(t, Ref, imp(t != result.base.btree, ghost.tree[t] == old(ghost.tree)[t]))
+
+// CreateIndex (the package function) builds a new, empty index that covers
+// nothing (trusted: key parsing and configuration are not verified here).
+//@ func CreateIndex
+//@   trusted
+//@   modifies ghost.cov, ghost.tree
+//@   ensures imp(err == nil, result0 != nil && fresh(result0) && wfIndex(result0) && fresh(result0.base) && fresh(result0.base.btree))
+//@   ensures imp(err == nil, ghost.cov == upd(old(ghost.cov), result0, constarr(false)) && all(t, Ref, imp(t != result0.base.btree, ghost.tree[t] == old(ghost.tree)[t])))
+//@   ensures imp(err != nil, ghost.cov == old(ghost.cov) && ghost.tree == old(ghost.tree))
+
+// NewCollection: an empty coherent collection (with or without the _id index).
+//@ func NewCollection
+//@   tags C15 C02 C03
+//@   modifies ghost.cov, ghost.tree, ghost.tainted
+//@   locals coll
+//@   ensures [ghostdef] ghost.tainted == upd(old(ghost.tainted), result, false)
+//@   ensures [C15,C02,C03 name=fresh] result != nil && fresh(result)
+//@   ensures [C15 name=coherent] coherent(result)
+//@   ensures [C15 name=empty] len(result.Documents.List) == 0
+//@   ensures [C15,C03 name=others-untouched] all(x, Ref, imp(preexisting(x), ghost.cov[x] == old(ghost.cov)[x] && ghost.tree[x] == old(ghost.tree)[x]))
+
+// Clone: a coherent collection of its own - a fresh set with the same documents
+// in the same order, a fresh index map with a clone of every index - and the
+// original, its indexes and every other tree are left as they were.
+//@ func (*Collection).Clone
+//@   tags C03 C15 C02
+//@   opt loopframe = on
+//@   requires coherent(c)
+//@   modifies ghost.cov, ghost.tree, ghost.tainted
+//@   locals clone
+//@   ensures [ghostdef] ghost.tainted == upd(old(ghost.tainted), result, old(ghost.tainted)[c])
+//@   ensures [C03,C15,C02 name=fresh] result != nil && fresh(result)
+//@   ensures [C15,C03 name=coherent] coherent(result)
+//@   ensures [C15,C03 name=same-documents] len(result.Documents.List) == len(c.Documents.List) && forall(k, 0, len(c.Documents.List), result.Documents.List[k] == c.Documents.List[k])
+//@   ensures [C15,C03 name=same-indexes] all(n, Str, has(result.Indexes, n) == has(c.Indexes, n))
+//@   ensures [C15,C03 name=source-untouched] all(x, Ref, imp(preexisting(x), ghost.cov[x] == old(ghost.cov)[x] && ghost.tree[x] == old(ghost.tree)[x]))
+//@   loop 0 invariant clone != nil && fresh(clone) && clone.Documents != nil && fresh(clone.Documents) && clone.Indexes != nil && fresh(clone.Indexes) && alloc(clone.Documents) > alloc(clone) && alloc(clone.Indexes) > alloc(clone)
+//@   loop 0 invariant wfDocs(clone.Documents) && ownDocs(clone.Documents) && len(clone.Documents.List) == len(c.Documents.List) && forall(k, 0, len(c.Documents.List), clone.Documents.List[k] == c.Documents.List[k]) && all(d, Ref, has(clone.Documents.Index, d) == has(c.Documents.Index, d))
+//@   loop 0 invariant all(n, Str, has(clone.Indexes, n) == (has(c.Indexes, n) && visited(n)))
+//@   loop 0 invariant all(n, Str, imp(has(clone.Indexes, n), wfIndex(clone.Indexes[n]) && fresh(clone.Indexes[n]) && all(d, Ref, ghost.cov[clone.Indexes[n]][d] == has(c.Documents.Index, d))))
+//@   loop 0 invariant all(x, Ref, imp(preexisting(x), ghost.cov[x] == old(ghost.cov)[x] && ghost.tree[x] == old(ghost.tree)[x]))
 
 // Insert: a collection that was coherent is coherent again after a successful
 // insert, and the document is its last one.
 //@ func (*Collection).Insert
-//@   trusted
+//@   tags C15 C07 C02 C01
+//@   uses access
+//@   requires coherent(c) && doc != nil
 //@   modifies since(c), *doc, ghost.tainted, ghost.cov, ghost.tree
-//@   ensures failTaints(c) && imp(err == nil, result0 != nil)
-// draft (being built: the verified contract that replaces the trusted one)
-// @ func (*Collection).Insert
-// @   tags C15 C07 C02 C01
-// @   uses access
-// @   requires coherent(c) && doc != nil
-// @   modifies since(c), *doc, ghost.tainted, ghost.cov, ghost.tree
-// @   ensures [ghostdef] failTaints(c)
-// @   ensures [C02] imp(err == nil, result0 != nil)
-// @   ensures [C15,C07 name=coherent] imp(err == nil, coherent(c))
-// @   ensures [C15,C01 name=appended] imp(err == nil, len(c.Documents.List) == old(len(c.Documents.List)) + 1 && c.Documents.List[old(len(c.Documents.List))] == doc && !old(has(c.Documents.Index, doc)))
-// @   ensures [C15,C01 name=others-kept] imp(err == nil, forall(k, 0, old(len(c.Documents.List)), c.Documents.List[k] == old(c.Documents.List[k])))
-// @   loop 0 invariant all(n, Str, imp(has(c.Indexes, n), wfIndex(c.Indexes[n]) && all(d, Ref, imp(d != doc, ghost.cov[c.Indexes[n]][d] == has(c.Documents.Index, d)))))
-// @   loop 0 invariant all(n, Str, imp(has(c.Indexes, n) && visited(n), ghost.cov[c.Indexes[n]][doc]))
+//@   ensures [ghostdef] failTaints(c)
+//@   ensures [C02] imp(err == nil, result0 != nil)
+//@   ensures [C15,C07 name=coherent] imp(err == nil, coherent(c))
+//@   ensures [C15,C01 name=appended] imp(err == nil, len(c.Documents.List) == old(len(c.Documents.List)) + 1 && c.Documents.List[old(len(c.Documents.List))] == doc && !old(has(c.Documents.Index, doc)))
+//@   ensures [C15,C01 name=others-kept] imp(err == nil, forall(k, 0, old(len(c.Documents.List)), c.Documents.List[k] == old(c.Documents.List[k])))
+//@   loop 0 invariant all(n, Str, imp(has(c.Indexes, n), wfIndex(c.Indexes[n]) && all(d, Ref, imp(d != doc, ghost.cov[c.Indexes[n]][d] == has(c.Documents.Index, d)))))
+//@   loop 0 invariant all(n, Str, imp(has(c.Indexes, n) && visited(n), ghost.cov[c.Indexes[n]][doc]))
+// Replace: the first matching document is swapped for the replacement in every
+// index and in the set (same slot); without a match nothing changes.
 //@ func (*Collection).Replace
-//@   trusted
+//@   tags C15 C07 C02 C01
+//@   uses lists access
+//@   requires coherent(c) && query != nil && repl != nil
 //@   modifies since(c), *repl, ghost.tainted, ghost.cov, ghost.tree
-//@   ensures failTaints(c) && imp(err == nil, result0 != nil)
+//@   locals list
+//@   ensures [ghostdef] failTaints(c)
+//@   ensures [C02] imp(err == nil, result0 != nil)
+//@   ensures [C15,C07 name=coherent] imp(err == nil, coherent(c))
+//@   ensures [C15,C01 name=no-match-no-change] imp(err == nil && len(result0.Matched) == 0, ghost.cov == old(ghost.cov) && all(d, Ref, has(c.Documents.Index, d) == old(has(c.Documents.Index, d))))
+//@   ensures [C15,C01 name=swapped] imp(err == nil && len(result0.Matched) > 0, all(d, Ref, has(c.Documents.Index, d) == ((old(has(c.Documents.Index, d)) && d != result0.Matched[0]) || d == repl)))
+//@   ensures [C15,C01 name=same-slot] imp(err == nil && len(result0.Matched) > 0, len(c.Documents.List) == old(len(c.Documents.List)) && forall(k, 0, len(c.Documents.List), c.Documents.List[k] == ite(old(c.Documents.List[k]) == result0.Matched[0], repl, old(c.Documents.List[k]))))
+//@   loop 0 invariant len(list) > 0 && all(n, Str, imp(has(c.Indexes, n), wfIndex(c.Indexes[n]) && all(d, Ref, imp(d != list[0] && d != repl, ghost.cov[c.Indexes[n]][d] == has(c.Documents.Index, d)))))
+//@   loop 0 invariant all(n, Str, imp(has(c.Indexes, n) && visited(n), ghost.cov[c.Indexes[n]][repl] && imp(list[0] != repl, !ghost.cov[c.Indexes[n]][list[0]])))
+// mongokit.Update applies the update to the documents of the list it is given
+// (trusted frame: it writes only those documents; Collection.Update hands it
+// fresh clones, allocated after the list that holds them).
+//@ func Update
+//@   trusted
+//@   requires forall(i, 0, len(list), alloc(list[i]) > alloc(list.base))
+//@   modifies since(list)
+//@   ensures len(list) == old(len(list)) && forall(i, 0, len(list), list[i] == old(list[i]))
+//@   ensures imp(err == nil, len(result0) == len(list) && (len(result0) == 0 || fresh(result0)))
+
+// Update: the matched documents are replaced by updated clones - in every index
+// (all old ones out, then all new ones in) and in the set (same slots).
+//@ define keptOrNew(c, list, newList, n, d) = (has(c.Documents.Index, d) && !inList(list, len(list), d)) || inList(newList, n, d)
 //@ func (*Collection).Update
-//@   trusted
+//@   tags C15 C07 C02 C01
+//@   uses lists access
+//@   requires coherent(c) && query != nil && skip >= 0
 //@   modifies since(c), ghost.tainted, ghost.cov, ghost.tree
-//@   ensures failTaints(c) && imp(err == nil, result0 != nil)
+//@   locals list newList modified filteredChanges changes
+//@   ensures [ghostdef] failTaints(c)
+//@   ensures [C02] imp(err == nil, result0 != nil)
+//@   ensures [C15,C07 name=coherent] imp(err == nil, coherent(c))
+//@   loop 0 invariant forall(k, 0, len(list), alloc(list[k]) < alloc(newList.base)) && forall(k, 0, len(newList), alloc(newList[k]) > alloc(newList.base))
+//@   loop 1 invariant forall(k, 0, len(list), alloc(list[k]) < alloc(newList.base)) && forall(k, 0, len(newList), alloc(newList[k]) > alloc(newList.base))
+//@   loop 3 invariant forall(k, 0, len(list), alloc(list[k]) < alloc(newList.base)) && forall(k, 0, len(newList), alloc(newList[k]) > alloc(newList.base))
+//@   loop 5 invariant forall(k, 0, len(list), alloc(list[k]) < alloc(newList.base)) && forall(k, 0, len(newList), alloc(newList[k]) > alloc(newList.base))
+//@   loop 1 invariant all(n, Str, imp(has(c.Indexes, n), wfIndex(c.Indexes[n]) && all(d, Ref, ghost.cov[c.Indexes[n]][d] == (has(c.Documents.Index, d) && !inList(list, rangeindex + 1, d)))))
+//@   loop 2 invariant all(n, Str, imp(has(c.Indexes, n), wfIndex(c.Indexes[n]) && all(d, Ref, imp(d != list[rangeindex1 + 1], ghost.cov[c.Indexes[n]][d] == (has(c.Documents.Index, d) && !inList(list, rangeindex1 + 1, d))))))
+//@   loop 2 invariant all(n, Str, imp(has(c.Indexes, n) && visited(n), !ghost.cov[c.Indexes[n]][list[rangeindex1 + 1]]))
+//@   loop 3 invariant all(n, Str, imp(has(c.Indexes, n), wfIndex(c.Indexes[n]) && all(d, Ref, ghost.cov[c.Indexes[n]][d] == keptOrNew(c, list, newList, rangeindex + 1, d))))
+//@   loop 4 invariant all(n, Str, imp(has(c.Indexes, n), wfIndex(c.Indexes[n]) && all(d, Ref, imp(d != newList[rangeindex3 + 1], ghost.cov[c.Indexes[n]][d] == keptOrNew(c, list, newList, rangeindex3 + 1, d)))))
+//@   loop 4 invariant all(n, Str, imp(has(c.Indexes, n) && visited(n), ghost.cov[c.Indexes[n]][newList[rangeindex3 + 1]]))
+//@   loop 5 invariant c.Documents == old(c.Documents) && c.Indexes == old(c.Indexes) && c.Documents.List == old(c.Documents.List) && wfDocs(c.Documents) && ownDocs(c.Documents) && len(newList) == len(list) && len(list) > 0 && fresh(list) && fresh(newList)
+//@   loop 5 invariant forall(k, 0, len(list), list[k] == before(list[k])) && forall(k, 0, len(newList), newList[k] == before(newList[k]))
+//@   loop 5 invariant all(d, Ref, has(c.Documents.Index, d) == ((old(has(c.Documents.Index, d)) && !inList(list, rangeindex + 1, d)) || inList(newList, rangeindex + 1, d)))
+//@   loop 5 invariant all(n, Str, imp(has(c.Indexes, n), wfIndex(c.Indexes[n]) && all(d, Ref, ghost.cov[c.Indexes[n]][d] == ((old(has(c.Documents.Index, d)) && !inList(list, len(list), d)) || inList(newList, len(newList), d)))))
+//@   loop 6 invariant coherent(c) && (cap(modified) == 0 || fresh(modified)) && (cap(filteredChanges) == 0 || fresh(filteredChanges)) && len(changes) == len(newList) && len(newList) == len(list)
+// Upsert: the document built from the query (and the replacement or update) is
+// inserted like any other.
+//@ func Extract
+//@   trusted
+//@   modifies nothing
+//@   ensures imp(err == nil, result0 != nil && fresh(result0))
+//@ func Apply
+//@   trusted
+//@   modifies *doc
 //@ func (*Collection).Upsert
-//@   trusted
+//@   tags C15 C07 C02 C01
+//@   uses access
+//@   requires coherent(c) && query != nil
 //@   modifies since(c), ghost.tainted, ghost.cov, ghost.tree
-//@   ensures failTaints(c) && imp(err == nil, result0 != nil)
+//@   locals doc
+//@   ensures [ghostdef] failTaints(c)
+//@   ensures [C02] imp(err == nil, result0 != nil)
+//@   ensures [C15,C07 name=coherent] imp(err == nil, coherent(c))
+//@   ensures [C15,C01 name=appended] imp(err == nil, result0.Upserted != nil && fresh(result0.Upserted) && len(c.Documents.List) == old(len(c.Documents.List)) + 1 && c.Documents.List[old(len(c.Documents.List))] == result0.Upserted)
+//@   ensures [C15,C01 name=others-kept] imp(err == nil, forall(k, 0, old(len(c.Documents.List)), c.Documents.List[k] == old(c.Documents.List[k])))
+//@   loop 0 invariant doc != nil && fresh(doc) && all(n, Str, imp(has(c.Indexes, n), wfIndex(c.Indexes[n]) && all(d, Ref, imp(d != doc, ghost.cov[c.Indexes[n]][d] == has(c.Documents.Index, d)))))
+//@   loop 0 invariant all(n, Str, imp(has(c.Indexes, n) && visited(n), ghost.cov[c.Indexes[n]][doc]))
+// Delete: the matched documents leave every index and then the set; nothing else changes.
+//@ define inList(l, n, d) = any(j, Int, 0 <= j && j < n && l[j] == d)
 //@ func (*Collection).Delete
-//@   trusted
+//@   tags C15 C02 C01
+//@   uses lists
+//@   requires coherent(c) && query != nil && skip >= 0
 //@   modifies since(c), ghost.tainted, ghost.cov, ghost.tree
-//@   ensures failTaints(c) && imp(err == nil, result0 != nil)
+//@   locals list
+//@   ensures [ghostdef] failTaints(c)
+//@   ensures [C02] imp(err == nil, result0 != nil)
+//@   ensures [C15 name=coherent] imp(err == nil, coherent(c))
+//@   ensures [C15,C01 name=exactly-matched-removed] imp(err == nil, all(d, Ref, has(c.Documents.Index, d) == (old(has(c.Documents.Index, d)) && !inList(result0.Matched, len(result0.Matched), d))))
+//@   loop 0 invariant all(n, Str, imp(has(c.Indexes, n), wfIndex(c.Indexes[n]) && all(d, Ref, ghost.cov[c.Indexes[n]][d] == (has(c.Documents.Index, d) && !inList(list, rangeindex + 1, d)))))
+//@   loop 1 invariant all(n, Str, imp(has(c.Indexes, n), wfIndex(c.Indexes[n]) && all(d, Ref, imp(d != list[rangeindex0 + 1], ghost.cov[c.Indexes[n]][d] == (has(c.Documents.Index, d) && !inList(list, rangeindex0 + 1, d))))))
+//@   loop 1 invariant all(n, Str, imp(has(c.Indexes, n) && visited(n), !ghost.cov[c.Indexes[n]][list[rangeindex0 + 1]]))
+//@   loop 2 invariant c.Documents == old(c.Documents) && c.Indexes == old(c.Indexes) && wfDocs(c.Documents) && ownDocs(c.Documents) && (len(list) == 0 || (fresh(list) && list.base != c.Documents.List.base))
+//@   loop 2 invariant forall(k, 0, len(list), list[k] == before(list[k]))
+//@   loop 2 invariant all(d, Ref, has(c.Documents.Index, d) == (old(has(c.Documents.Index, d)) && !inList(list, rangeindex + 1, d)))
+//@   loop 2 invariant all(n, Str, has(c.Indexes, n) == old(has(c.Indexes, n)) && c.Indexes[n] == old(c.Indexes[n]))
+// Build adds every document of the list; CreateIndex (the method) publishes a
+// new index under the name only together with a successful build over all
+// documents of the collection.
+//@ func (*Index).Build
+//@   tags C15 C07
+//@   requires wfIndex(i)
+//@   modifies ghost.cov, ghost.tree
+//@   ensures [C15,C07 name=all-covered] imp(err == nil && result0, all(d, Ref, ghost.cov[i][d] == (old(ghost.cov)[i][d] || inList(list, len(list), d))))
+//@   ensures [C15 name=other-indexes] all(x, Ref, imp(x != i, ghost.cov[x] == old(ghost.cov)[x])) && all(t, Ref, imp(t != i.base.btree, ghost.tree[t] == old(ghost.tree)[t]))
+//@   loop 0 invariant all(d, Ref, ghost.cov[i][d] == (old(ghost.cov)[i][d] || inList(list, rangeindex + 1, d)))
+//@   loop 0 invariant all(x, Ref, imp(x != i, ghost.cov[x] == old(ghost.cov)[x])) && all(t, Ref, imp(t != i.base.btree, ghost.tree[t] == old(ghost.tree)[t]))
+//@ func (IndexConfig).Name
+//@   trusted
+//@   modifies nothing
+//@ func (IndexConfig).Equal
+//@   trusted
+//@   modifies nothing
+//@ func (*Index).Config
+//@   trusted
+//@   modifies nothing
+//@   ensures result.Key != nil
 //@ func (*Collection).CreateIndex
-//@   trusted
+//@   tags C15 C07 C02
+//@   requires coherent(c) && config.Key != nil
 //@   modifies since(c), ghost.tainted, ghost.cov, ghost.tree
-//@   ensures failTaints(c)
+//@   ensures [ghostdef] failTaints(c)
+//@   ensures [C15,C07 name=coherent] imp(err == nil, coherent(c))
+//@   ensures [C15 name=documents-untouched] c.Documents == old(c.Documents) && c.Documents.List == old(c.Documents.List) && all(d, Ref, has(c.Documents.Index, d) == old(has(c.Documents.Index, d)))
+//@   loop 0 invariant true
+// DropIndex only removes entries of the index map.
 //@ func (*Collection).DropIndex
-//@   trusted
+//@   tags C15 C02
+//@   requires coherent(c)
 //@   modifies since(c), ghost.tainted, ghost.cov, ghost.tree
-//@   ensures failTaints(c)
+//@   ensures [ghostdef] failTaints(c)
+//@   ensures [C15 name=coherent] imp(err == nil, coherent(c))
+//@   ensures [C15 name=only-drops] all(n, Str, imp(has(c.Indexes, n), old(has(c.Indexes, n)) && c.Indexes[n] == old(c.Indexes[n]))) && ghost.cov == old(ghost.cov)
+//@   locals dropped
+//@   loop 0 invariant (cap(dropped) == 0 || fresh(dropped)) && c.Documents == old(c.Documents) && c.Indexes == old(c.Indexes) && all(n, Str, imp(has(c.Indexes, n), old(has(c.Indexes, n)) && c.Indexes[n] == old(c.Indexes[n])))
 
 //@ func (*Collection).Find
 //@   tags C13 C01
